@@ -1,20 +1,35 @@
 CFG = dict(
      claimed=True,
-     rule="Cases: (exported function, algorithm / parameter set, path = ok | named failure (wrong key/nonce/tag/plaintext/ciphertext size, "
+     rule="Single calls. Cases: (exported function, algorithm / parameter set, path = ok | named failure (wrong key/nonce/tag/plaintext/ciphertext size, "
           "wrong key kind, bad tag, tampered ciphertext, bad padding under a valid tag, short input ...), message length, per-argument spare "
-          "capacity 0..64, AEAD dst form nil | separate | in place) over every exported function of crypto, crypto/aeskw, crypto/padding and "
-          "crypto/aescbcaead that takes a []byte. Every []byte argument (and the raw bytes behind a symmetric jwk.Key) is cut out of a "
-          "canary-filled backing buffer: 32-byte guard, argument bytes, spare capacity behind len, 32-byte guard; all of it is compared "
-          "bit for bit after the call, except the bytes and capacity of an explicit AEAD dst. The sweep enumerates function x algorithm "
-          "x path x lengths around block boundaries x 8 spare-capacity patterns; rapid draws the rest. Non-trivial: some read-only argument "
-          "has spare capacity and the call got past argument validation into the primitive. Distinct by the case without its random content.",
+          "capacity 0..64, AEAD dst form nil | separate | in place, argument layout) over every exported function of crypto, crypto/aeskw, crypto/padding and "
+          "crypto/aescbcaead that takes a []byte. Argument layout 'isolated': every []byte argument (and the raw bytes behind a symmetric jwk.Key) is cut out of a "
+          "canary-filled backing buffer of its own: 32-byte guard, argument bytes, spare capacity behind len, 32-byte guard. Argument layout 'packed': two or more "
+          "arguments of the call are sub-slices of ONE caller buffer in a chosen memory order (nonce|ciphertext|tag, ciphertext|tag, iv|ciphertext, tag|ciphertext, "
+          "digest|signature, key|nonce|plaintext ...), adjacent (gap 0), a few canary bytes apart, or overlapping (read-only arguments only), with the capacity of each "
+          "sub-slice ending at its length, at the next argument, or at the end of the buffer (two-index slicing: the spare capacity of an argument then covers "
+          "the arguments behind it); an in-place AEAD dst inside such a buffer never overlaps and never has capacity over its neighbours. All of every buffer is compared "
+          "bit for bit after the call, except the bytes and capacity of an explicit AEAD dst. MemSweep enumerates function x algorithm x path x lengths around block "
+          "boundaries x 8 spare-capacity patterns (isolated); LayoutSweep enumerates function x algorithm x path x every choice and order of the arguments sharing one "
+          "buffer x capacity mode x dst form (adjacent; thorough: also gaps and overlaps); rapid draws the rest. Non-trivial: some read-only argument "
+          "has spare capacity and the call got past argument validation into the primitive (with overlapping arguments: only when the call succeeded). "
+          "Sequences of calls in one process (memory handed to a call stays the caller's after the call returned): the arenas of the last Keep (1..12) calls are kept "
+          "and ALL of them are compared again after every later call and after a final garbage collection, the former dst included; each step has 0..2 garbage collections "
+          "in front of it (pools built on sync.Pool change what they hand out with every collection). SeqSweep: for every (function, algorithm, path) A: [2 collections] A "
+          "[1 collection] then every function x algorithm on its ok path (RSA operations: a rotating subset; thorough: failure paths too), A's arena pinned; "
+          "SeqRapid: 2..12 calls drawn mostly from a small family (a function and its inverse / its wrappers, 1..4 algorithms), each with its own path, sizes, spare capacities "
+          "and layout. Non-trivial sequence: at least two of its calls are non-trivial. Distinct by the case without its random content.",
      assumptions=["writes are observed as changed bytes: a write of the value already present is invisible (canaries are pseudo-random, per case)",
                   "jwk.FromRaw([]byte) keeps the caller's slice (true for lestrrat-go/jwx v2.0.21), so key bytes are checked in place",
-                  "the independent implementations of refcrypto build valid inputs for the decryption paths"],
-     technique="property-based testing (rapid) + deterministic sweep over (function, argument position, algorithm, path) with canary buffers around every slice argument",
+                  "the independent implementations of refcrypto build valid inputs for the decryption paths",
+                  "a write into a buffer of an earlier call is observed only while that buffer is among the kept arenas (last 1..12 calls; SeqSweep pins the first) and only "
+                  "if the later call that performs it is one of the calls of the sequence; the sequences run with GOMAXPROCS=1, so per-P pool state is shared by all calls of a sequence"],
+     technique="property-based testing (rapid) + deterministic sweeps over (function, argument position, algorithm, path, argument layout) with canary buffers around every slice argument, "
+               "single calls and sequences of calls whose earlier arenas are re-verified after every later call",
      level_text="Generated-input search: every case runs the real dapr/kit function on arguments living inside guarded canary buffers and compares "
                 "guards, argument bytes and spare capacity with a saved copy. Exhaustive over (function, algorithm, path, dst form) for the listed "
-                "length and capacity patterns; sampled beyond. No absence claim.",
+                "length and capacity patterns, and over (function, algorithm, path, choice and order of arguments sharing one buffer, capacity mode) for adjacent layouts; "
+                "sampled beyond, sequences of calls included. No absence claim.",
      level_note="In-place AEAD forms allowed by the cipher.AEAD contract (Seal(plaintext[:0],...), Open(ciphertext[:0],...)) make the argument the "
                 "destination, so only its guards are checked there. A panic of the callee is not a C17 verdict (memory is still compared). "
                 "Result slices that live in an argument's memory are counted as informational classes only.",
